@@ -106,4 +106,18 @@ PROPS = {
         "assumptions": [],
         "explanation": "loop theorems on the model + generated loop bodies judged against an element-by-element Go reference interpreter (loop unrolling) and re-evaluated by the model",
     },
+    "C01": {
+        "level": "proof",
+        "cone": ["model/Text.v", "model/Value.v", "model/Eval.v", "proofs/TextProofs.v", "proofs/EvalProofs.v", "props/C01.v"],
+        "trusted_base": COMMON_TB + ["the sink (write) and html_escape of model/Value.v and model/Text.v transcribe compiler.write and text/template.HTMLEscapeString; values with a String() method that are not strings (fmt.Stringer) are emitted unescaped by the sink and are treated as trusted (stated, not hidden)"],
+        "assumptions": [],
+        "explanation": "sink theorems (escaped exactly once / verbatim exactly once, for every value) on the model + payload plumbing routes on the implementation with a marker oracle, re-evaluated by the model",
+    },
+    "C02": {
+        "level": "proof",
+        "cone": ["model/Lexer.v", "model/Parser.v", "model/Eval.v", "proofs/LexerProofs.v", "props/C02.v"],
+        "trusted_base": COMMON_TB + ["model/Lexer.v (readHTML, readString, readBString) transcribes lexer/lexer.go; NUL bytes end the scan as in the code and are outside the property (NUL-free)"],
+        "assumptions": [],
+        "explanation": "lexer theorems (text scanning vs the reference scanner, tag-free identity, string literals) + exhaustive short strings and random interleavings compared with the concatenation of texts and values",
+    },
 }
